@@ -82,6 +82,9 @@ def make_case(chk, rng, i):
     p["nrules"] = (2, 7)
     p["depth"] = 2
     p["scs"] = rng.choice([0, 0, 1, 2])
+    multi_eof = (i % 4 == 2)
+    if multi_eof:
+        p["scs"] = rng.choice([1, 2])
     p["bol"] = 20
     p["trail"] = 10 if i % 4 != 3 else 35
     p["ci"] = (i % 6 == 5)
@@ -119,6 +122,14 @@ def make_case(chk, rng, i):
             r["pat"] = ("alt", [src["pat"], g.series(1)])    # super-language: partly useful
         pos = rng.rint(rules.index(src) + 1, len(rules)) if t != 4 else rng.below(len(rules) + 1)
         rules.insert(pos, r)
+    if multi_eof:
+        # several <<EOF>> rules: they are rules without a pattern and flex numbers them apart
+        # from the others; the warnings for the pattern rules must not depend on them
+        nsc = 1 + p["scs"]
+        case["eofs"] = [{"scs": [rng.rint(1, nsc - 1)], "act": [("term",)]},
+                        {"scs": None, "act": [("term",)]}]
+        if nsc > 2 and rng.chance(50):
+            case["eofs"].insert(0, {"scs": [0], "act": [("term",)]})
     nodefault = (i % 3 == 0)
     if nodefault:
         case["opts"]["nodefault"] = True
